@@ -68,6 +68,7 @@ type Ctx struct {
 	funcByID map[int]interface{}
 	strIDs   map[string]int
 
+	named         map[string]Term // hash-consing table of named terms
 	timeoutFactor float64 // contract option `opt slow=<factor>`: solver time multiplier for a known-heavy function
 	sizeHints  string
 	nilHints   string
@@ -100,6 +101,9 @@ func NewCtx(p *Program) *Ctx {
 		"(declare-datatypes ((Slice 0)) (((mk-slice (sl-base (_ BitVec 32)) (sl-off (_ BitVec 64)) (sl-len (_ BitVec 64)) (sl-cap (_ BitVec 64))))))",
 		"(declare-datatypes ((Iface 0)) (((mk-iface (if-typ (_ BitVec 32)) (if-val (_ BitVec 64))))))",
 		"(declare-fun str_len (Str) (_ BitVec 64))",
+		"(declare-fun f64_of_bv64 ((_ BitVec 64)) F64)",
+		"(declare-fun bv64_of_f64 (F64) (_ BitVec 64))",
+		"(declare-fun f64_sqrt (F64) F64)",
 	)
 	return c
 }
@@ -339,10 +343,19 @@ func (c *Ctx) Name(hint string, t Term) Term {
 			return App(SSlice, "mk-slice", comps...)
 		}
 	}
+	// hash-consing: a term already named keeps its name (identical computations become syntactically identical)
+	if c.named == nil {
+		c.named = map[string]Term{}
+	}
+	if prev, ok := c.named[t.S]; ok && prev.Sort == t.Sort {
+		return prev
+	}
 	c.nameCtr++
 	n := fmt.Sprintf("%s!%d", sanitize(hint), c.nameCtr)
 	c.decls = append(c.decls, fmt.Sprintf("(define-fun %s () %s %s)", n, t.Sort, t.S))
-	return Term{S: n, Sort: t.Sort, tree: t.tree}
+	r := Term{S: n, Sort: t.Sort, tree: t.tree}
+	c.named[t.S] = r
+	return r
 }
 
 func (c *Ctx) DeclRaw(s string) { c.decls = append(c.decls, s) }
